@@ -891,6 +891,33 @@ def oracle(ctx):
                 continue
             seen.add(s)
             ctx.add_failure("oracle", "B3:" + k, s, f"real serve() ({r['name']}): {detail}", witness=_b3_witness(r))
+    # oracle B4: the hash-check bypass (steps with a stored hash are dispatched without looking at resources
+    # or holds) on a second build after inputs changed: the commands still obey both limits
+    b4 = [(k,) + LP.scenario_checking(k) for k in ("resource", "hold")]
+    for _ in range(ctx.scale(8, 120)):
+        sub = __import__("random").Random(ctx.rng.getrandbits(48))
+        b4.append(("gen",) + LP.gen_checking_history(sub))
+    for n, (name, proj, avail, din, hist) in enumerate(b4):
+        njob = 3 if name != "gen" else 1 + n % 3
+        schedule = {"seed": ctx.rng.getrandbits(30), "points": ["start", "end"] if n % 2 else ["end"]}
+        results, prog2 = LP.run_checking(proj, avail, hist, njob, schedule)
+        for phase, res in enumerate(results):
+            _annotate_defs(res, prog2 if phase else proj.program)
+            found = check_stamps(res, njob, avail, din)
+            ctx.case(("B4", name, json.dumps(prog2, sort_keys=True), njob, schedule["seed"], phase), phase == 1)
+            ctx.count("B4:builds")
+            ctx.count("B4:commands", len(res.commands))
+            if phase:
+                ctx.count("B4:second_build_commands", len(res.commands))
+            for k, detail in found:
+                s = f"serve:{k}:" + ("second-build-with-stored-hashes" if phase else "first-build")
+                if s in seen:
+                    continue
+                seen.add(s)
+                ctx.add_failure("oracle", "B4:" + k, s, f"real serve(), build {phase + 1} of 2 ({name}): {detail}",
+                                witness={"project": proj.to_json(), "history": hist, "schedule": schedule, "njob": njob,
+                                         "resources": avail,
+                                         "commands": [[c["label"], c["start"], c["stop"], c["resources"]] for c in res.commands]})
     # oracle B2: random projects
     nb = ctx.scale(40, 500)
     for _ in range(nb):
@@ -957,7 +984,14 @@ def replay(ctx, obj):
         for c in res.commands:
             print(c["label"], c["start"], c["stop"], [x[0] for x in c["rpc"]])
         print("max commands executing at once:", res.max_running, "njob:", njob)
-    if "project" in w:
+    if "history" in w:
+        from . import e3
+        proj = e3.Project.from_json(w["project"])
+        results, _ = LP.run_checking(proj, w["resources"], w["history"], w["njob"], w["schedule"])
+        for phase, res in enumerate(results):
+            for c in res.commands:
+                print("build", phase + 1, c["label"], c["start"], c["stop"], c["resources"])
+    elif "project" in w:
         from . import e3
         for p, c in list(w["project"].get("sources", {}).items()):
             if c.startswith("@repeat:"):
